@@ -95,7 +95,7 @@ def run(ctx, rep):
                'disk loader precedes the buffer loader on the mixed path' if d_before else 'the buffer part is loaded before (or without) the disk part')
 
     # ------------------------------------------------------------ R02.b accumulator offsets
-    rep.rule('R02.b', 'accumulator offsets: the base offset follows the first buffered message whenever the buffer was empty, the last offset the last appended message; reset only at materialisation; no writer outside the accumulator', floor=7, analysis='A10')
+    rep.rule('R02.b', 'accumulator offsets: the base offset follows the first buffered message whenever the buffer was empty, the last offset the last appended message; reset only at materialisation; no writer outside the accumulator; the batch iterator advances by the record it read', floor=8, analysis='A10')
     BA = 'server::streaming::batching::batch_accumulator::BatchAccumulator'
     ACC = {
         'base_offset': {BA + '::append': ['[T]::first(items).offset'], BA + '::materialize_batch_and_update_state': ['0']},
@@ -103,6 +103,10 @@ def run(ctx, rep):
         'current_timestamp': {BA + '::append': ['[T]::last(items).timestamp'], BA + '::materialize_batch_and_update_state': ['0']},
     }
     forms.check_table(ctx, rep, 'R02.b', BA, ACC)
+    # the iterator over a stored batch advances by exactly the record it has just read (length prefix 4 + length)
+    IT = 'server::streaming::batching::iterator::RetainedMessageBatchIterator'
+    forms.check_table(ctx, rep, 'R02.b', IT, {'current_position': {
+        '<%s as std::iter::Iterator>::next' % IT: ['((4 + u32::from_le_bytes(Result::ok(::index(self.batch.bytes, Range::Range{start: self.current_position, end: (4 + self.current_position)})))) + self.current_position)']}})
     ab = ctx.fn_body(BA + '::append')
     for blk in sorted(ab.reach):
         for st in ab.stmts(blk):
